@@ -143,6 +143,16 @@ def run_modes(cfg, prior_name, seq, poller=None):
         r.call(inv.get_operation_mode)
         r.call(inv.get_operation_mode)
     for (m, p, soc) in seq:
+        if m == 'FOREIGN':
+            # somebody else (the vendor's app, another client) changed the mode meanwhile: another work mode, group 1 off
+            cur = dev.rf.get(47000) if cfg['family'] == 'ET' else dev.settings[67]
+            other = 0 if cur != 0 else 1
+            if cfg['family'] == 'ET':
+                dev.rf.set(47000, other)
+            else:
+                dev.settings[66:68] = bytes([0, other])
+            dev.rf.setbytes(a1, SCHED_BASE[0] if cfg['v2'] else ECO_V1_BASE[0])
+            continue
         if m not in modes:
             continue
         if poller:
@@ -244,6 +254,8 @@ def job_e2e(j):
             seqs.append([(m, p, soc)])
     for m1, m2 in itertools.product(modes, repeat=2):   # non-initial starts
         seqs.append([(m1, 30, 60), (m2, 55, 50)])
+    for m in modes:                                     # the same request again after somebody else changed the mode
+        seqs.append([(m, 30, 60), ('FOREIGN', 0, 0), (m, 30, 60)])
     for seq in seqs:
         if prior_name == 'undecodable' and seq[0][0] not in (OM.ECO_CHARGE, OM.ECO_DISCHARGE):
             continue
@@ -255,8 +267,8 @@ def job_e2e(j):
             kk = f"{key}/{cfg['name']}/prior:{prior_name}" + ('/after-a-getter-call' if poller == 'getter-first' else f"/while-polling:{poller.split('@')[0]}" if poller else '')
             out.setdefault(kk, []).append(dict(key=kk, clause=key.split('/')[0],
                                                replay=dict(part='e2e', cfg=cfg, prior=prior_name, poller=poller,
-                                                           seq=[[m.name, p, s] for m, p, s in seq]),
-                                               detail=dict(cause=cause, sequence=[[m.name, p, s] for m, p, s in seq])))
+                                                           seq=[[getattr(m, 'name', m), p, s] for m, p, s in seq]),
+                                               detail=dict(cause=cause, sequence=[[getattr(m, 'name', m), p, s] for m, p, s in seq])))
     res = []
     for key, lst in out.items():
         lst.sort(key=lambda v: len(v['replay']['seq']))
@@ -363,7 +375,7 @@ def job_faults(cfg):
 def sample_modes(name, prior, seq):
     cfg = [c for c in e2e_configs() if c['name'] == name][0]
     vio, n = run_modes(cfg, prior, seq)
-    return dict(config=name, prior_group1=prior, sequence=[[m.name, p, s] for m, p, s in seq], mode_changes=n, violations=vio)
+    return dict(config=name, prior_group1=prior, sequence=[[getattr(m, 'name', m), p, s] for m, p, s in seq], mode_changes=n, violations=vio)
 
 
 def run(tier, seed, rep):
@@ -443,6 +455,6 @@ def replay(r):
     if r['part'] == 'limits':
         n, res = limits_job(cfg)
         return dict(violations=[v['key'] for v in res])
-    seq = [(getattr(OM, m), p, s) for m, p, s in r['seq']]
+    seq = [(getattr(OM, m) if m != 'FOREIGN' else m, p, s) for m, p, s in r['seq']]
     vio, n = run_modes(cfg, r['prior'], seq, r.get('poller'))
     return dict(violations=vio)
